@@ -312,8 +312,17 @@ impl PartitionReplicatorActor {
                     append.first_partition_sequence,
                     append.last_partition_sequence,
                 );
-                self.buffered_writes
-                    .progress_to(append.last_partition_sequence + 1);
+                // A buffered write that claims a sequence inside the transaction just appended
+                // (or below it) conflicts with it and can never be applied: answer it now
+                // instead of leaving it in the buffer below the next expected sequence.
+                for (_, skipped) in self
+                    .buffered_writes
+                    .progress_to(append.last_partition_sequence + 1)
+                {
+                    for reply in skipped.reply_senders {
+                        reply.tx.send(Err(WriteError::SequenceConflict));
+                    }
+                }
 
                 // Buffer events for potential broadcast when confirmed
                 // Convert partition sequences to 1-indexed versions for the confirmation system
